@@ -49,6 +49,8 @@ var Seeds = []Seed{
 	// a case-insensitive literal through two three-member fold orbits, and an alternation whose later branch
 	// extends an earlier, non-adjacent one
 	{"fold", `(?i)ask`}, {"alt", `(ab|c|abd+)x`},
+	// a four-part class sequence whose first class reappears (a restart inside a failed attempt matters)
+	{"composite", `[a-z]+[0-9]+[a-z]+[A-Z]+`},
 }
 
 func init() {
